@@ -506,6 +506,7 @@ public:
 const char* const kEnv[] = {"PATH=/usr/bin:/bin", "LLBUILD_TEST=1", "LANG=C", nullptr};
 
 long long gBuilds = 0;
+std::string gProp = "C05";  // class prefix of the reuse scenarios (they serve C05 and C10)
 
 // the process cwd must be the sandbox root
 BuildObs runBuild(Sandbox& sb, int lanes, bool db) {
@@ -663,7 +664,7 @@ struct Judge {
       bool cancelled = del.cancelIssued;
       if (cancelled) res.count("reuse_first_builds_cancelled");
       if (cancelled && r1)
-        res.violate("C05.ru-cancelled-build-reported-success", what + ": the cancelled build returned success (ran: " + join(o1.ran, " ") + ")", spec);
+        res.violate(gProp + ".ru-cancelled-build-reported-success", what + ": the cancelled build returned success (ran: " + join(o1.ran, " ") + ")", spec);
       if (verbose) printf("%s\n  B1: returned %d, %ld callbacks, cancelled=%d, ran [%s]\n%s", what.c_str(), (int)r1, firstCallbacks, (int)cancelled, join(o1.ran, " ").c_str(), o1.output.c_str());
       // repair, optional edit
       sb.setCtl({});
@@ -679,13 +680,13 @@ struct Judge {
       if (verbose) printf("  B2: returned %d, ran [%s]\n%s", (int)r2, join(ran2, " ").c_str(), o1.output.c_str());
       res.count("reuse_later_builds");
       if (!r2 || o1.failures || o1.errors)
-        res.violate("C05.ru-later-build-failed", what + ": the next build on the same frontend, cause removed, failed (returned " + std::to_string(r2) + ", " +
+        res.violate(gProp + ".ru-later-build-failed", what + ": the next build on the same frontend, cause removed, failed (returned " + std::to_string(r2) + ", " +
                         std::to_string(o1.failures) + " command failures; ran: " + join(ran2, " ") + ") " + o1.output.substr(0, 200), spec);
       else
         for (auto& kv : want) {
           std::string got = sb.observe(kv.first);
           if (got != kv.second) {
-            res.violate(std::string("C05.ru-later-build-") + (got == "<missing>" ? "missing-output" : "stale-output"),
+            res.violate(gProp + ".ru-later-build-" + (got == "<missing>" ? "missing-output" : "stale-output"),
                         what + ": after the next (successful) build on the same frontend output " + kv.first + " is '" + got + "', a clean build gives '" + kv.second +
                             "' (ran: " + join(ran2, " ") + ")", spec);
             break;
@@ -699,7 +700,7 @@ struct Judge {
       res.count("reuse_later_builds");
       if (verbose) printf("  B3: returned %d, ran [%s]\n", (int)r3, join(ran3, " ").c_str());
       if (r2 && !o1.failures && (!r3 || !ran3.empty()))
-        res.violate("C05.ru-null-build-not-clean", what + ": a third build with no change returned " + std::to_string(r3) + " and ran [" + join(ran3, " ") + "]", spec);
+        res.violate(gProp + ".ru-null-build-not-clean", what + ": a third build with no change returned " + std::to_string(r3) + " and ran [" + join(ran3, " ") + "]", spec);
     }
     if (chdir("/") != 0) {}
     sb.destroy();
@@ -991,7 +992,8 @@ int main(int argc, char** argv) {
       "failing builds at a later index than the second build of the history"};
 
   // ------------------------------------------------------------ C05: reuse scenarios
-  if (args.prop == "C05") {
+  if (args.prop == "C05" || args.extra == "reuse") {
+    gProp = args.prop;
     auto cmdIndex = [&](const Desc& d, const std::string& n) { return n == "-" ? -1 : d.byName(n); };
     if (!args.replaySpec.empty()) {
       Strs f = split(args.replaySpec, '|');
@@ -1057,11 +1059,11 @@ int main(int argc, char** argv) {
         "number of callbacks of the uncancelled build, and 0 = not cancelled), then - control file removed - a second build and a null build on the same frontend; "
         "evaluations = scenarios, distinct_nontrivial = scenarios whose first build really was cancelled";
     res.assumptions = {
-        "C05 reuse: the later builds are judged only by their results (exit status, contents of every output against the reference evaluator, null build runs nothing); where exactly "
+        "reuse scenarios: the later builds are judged only by their results (exit status, contents of every output against the reference evaluator, null build runs nothing); where exactly "
         "the asynchronous cancellation lands in the first build is not asserted, so thread timing cannot cause an alarm",
-        "C05 reuse: with 4 lanes the order of status callbacks of independent commands is the kernel's; the callback INDEX at which the build is cancelled is enumerated exhaustively, "
+        "reuse scenarios: with 4 lanes the order of status callbacks of independent commands is the kernel's; the callback INDEX at which the build is cancelled is enumerated exhaustively, "
         "the interleaving behind it is not (the slowed-down command keeps one command running for 150 ms so that the others settle first)",
-        "C05 reuse: keep-going delegate (a failure does not cancel by itself); the reference evaluator is cross-checked against a real clean build per description"};
+        "reuse scenarios: keep-going delegate (a failure does not cancel by itself); the reference evaluator is cross-checked against a real clean build per description"};
     if (chdir("/") != 0) {}
     wipe(gScratch, true);
     if (!res.write(args.out)) { fprintf(stderr, "kgx: cannot write %s\n", args.out.c_str()); return 2; }
